@@ -287,6 +287,11 @@ func init() {
 	vfNatives["vfSchedLIFO"] = func(fr *frame, a []value) value { fr.i.S.lifo = fr.i.truth(a[0]); return nil }
 	vfNatives["vfMaxTicks"] = func(fr *frame, a []value) value { fr.i.S.maxTicks = int(asInt64(a[0])); return nil }
 	vfNatives["vfExpectPanic"] = func(fr *frame, a []value) value { fr.i.p.expectPanic = argString(a[0]); return nil }
+	vfNatives["vfMustFinishWithin"] = func(fr *frame, a []value) value {
+		fr.i.spinLimit = fr.i.steps + asInt64(a[0])
+		return nil
+	}
+	vfNatives["vfFinished"] = func(fr *frame, a []value) value { fr.i.spinLimit = 0; return nil }
 	vfNatives["vfExpectDeadlock"] = func(fr *frame, a []value) value { fr.i.p.expectDeadlock = true; return nil }
 	vfNatives["vfAnd"] = func(fr *frame, a []value) value { return fr.i.vAnd(a[0], a[1]) }
 	vfNatives["vfOr"] = func(fr *frame, a []value) value { return fr.i.vOr(a[0], a[1]) }
@@ -1021,6 +1026,26 @@ func init() {
 	}
 	natives["github.com/google/uuid.NewString"] = func(fr *frame, a []value) value {
 		return "01020304-0506-0708-090a-0b0c0d0e0f10"
+	}
+	// maps.Clone's runtime helper: a shallow copy
+	natives["maps.clone"] = func(fr *frame, a []value) value {
+		src, ok := a[0].(iface)
+		if !ok {
+			panic(engineFault{"maps.clone: unexpected argument"})
+		}
+		m, ok := src.v.(*omap)
+		if !ok || m == nil {
+			return src
+		}
+		c := newOmap()
+		for _, e := range m.ents {
+			c.ents = append(c.ents, e)
+		}
+		for k, v := range m.idx {
+			c.idx[k] = v
+		}
+		c.live, c.nsym = m.live, m.nsym
+		return iface{t: src.t, v: c}
 	}
 	// crypto/rand: a fixed deterministic byte stream (stated in the evidence)
 	natives["crypto/rand.Read"] = func(fr *frame, a []value) value {
